@@ -159,3 +159,21 @@ package cluster
 //@   loop 1 invariant forall k uint64 :: {in(c.core.Stores.stores, k)} in(c.core.Stores.stores, k) ==> old(in(c.core.Stores.stores, k)) && c.core.Stores.stores[k] == old(c.core.Stores.stores[k])
 //@   loop 1 modifies c.core.Stores.stores[*], ghost kvhas, ghost kvval, ghost evres
 //@   modifies c.core.Stores.stores[*], ghost kvhas, ghost kvval, ghost evres
+
+// HandleStoreHeartbeat: a heartbeat only refreshes statistics - the store it writes back carries the lifecycle state,
+// the destroyed flag, the id and the address of the store that is SERVED AT THAT MOMENT. Whatever the served stores
+// were before the cluster lock was acquired is forgotten at the acquisition (another request - a removal, a burial -
+// may have completed in between), so a record read before the lock cannot be written back.
+//@ opaque github.com/tikv/pd/server/statistics::UpdateStoreHeartbeatMetrics, github.com/tikv/pd/server/statistics::(*HotStat).Observe, github.com/tikv/pd/server/statistics::(*HotStat).FilterUnhealthyStore, github.com/tikv/pd/server/statistics::(*HotStat).CheckReadAsync, (*StoreLimiter).Collect, github.com/tikv/pd/server/statistics::NewCollectUnReportedPeerTask
+//@ opaque github.com/tikv/pd/server/core::(*storeStats).updateRawStats, github.com/tikv/pd/server/core::(*StoreInfo).IsLowSpace, github.com/tikv/pd/server/statistics::(*StoresStats).Observe, github.com/tikv/pd/server/statistics::(*StoresStats).FilterUnhealthyStore
+// Cached regions hold no nil peers (the same assumption as in C09).
+//@ func (*RaftCluster).GetRegion
+//@   assumed
+//@   ensures result != nil ==> allocated(result) && result.meta != nil && nonnil(result.meta.Peers)
+//@   modifies nothing
+//@ func (*RaftCluster).HandleStoreHeartbeat
+//@   props C14
+//@   requires wfCluster(c) && stats != nil && c.opt != nil && c.hotStat != nil
+//@   atlock c.RWMutex havoc c.core.Stores.stores[*], all core.StoreInfo.*, all metapb.Store.* : wfCluster(c)
+//@   at PutStore 1 assert [writes-back-the-served-lifecycle-state] held(c.RWMutex) && in(c.core.Stores.stores, ite(arg0.meta == nil, 0, arg0.meta.Id)) && arg0.meta != nil && arg0.meta.State == storeAt(c, arg0.meta.Id).meta.State && arg0.meta.PhysicallyDestroyed == storeAt(c, arg0.meta.Id).meta.PhysicallyDestroyed && arg0.meta.Address == storeAt(c, arg0.meta.Id).meta.Address
+//@   modifies *
